@@ -18,7 +18,7 @@ pub fn k20_1a_size<S: Src>(s: &mut S) {
     vcover!(s, n == 3, "varint on 3 bytes");
     vcover!(s, n == 5, "varint on 5 bytes");
     vcover!(s, n == 10, "varint on 10 bytes");
-    s.check(n == inner_sizeof_varint(v), "write_varint64 length == inner_sizeof_varint");
+    vcheck!(s, n == inner_sizeof_varint(v), "write_varint64 length == inner_sizeof_varint");
     std::mem::forget(b);
 }
 
@@ -45,10 +45,10 @@ pub fn k20_1b_roundtrip<S: Src>(s: &mut S) {
     let b = write_varint64(v);
     let buf = window_of(&b, 0);
     match read_varint64(&buf) {
-        Ok(r) => s.check(r == v, "read_varint64(write_varint64(v)) == v"),
+        Ok(r) => vcheck!(s, r == v, "read_varint64(write_varint64(v)) == v"),
         Err(e) => {
             std::mem::forget(e);
-            s.check(false, "read_varint64 fails on writer output")
+            vcheck!(s, false, "read_varint64 fails on writer output")
         }
     }
     std::mem::forget(b);
@@ -62,18 +62,18 @@ pub fn k20_1c_offset<S: Src>(s: &mut S) {
     let n = b.len();
     let buf = window_of(&b, 3);
     match read_varint64_offset(&buf, 3) {
-        Ok(r) => s.check(r == v, "read_varint64_offset(pad ++ write_varint64(v), 3) == v"),
+        Ok(r) => vcheck!(s, r == v, "read_varint64_offset(pad ++ write_varint64(v), 3) == v"),
         Err(e) => {
             std::mem::forget(e);
-            s.check(false, "read_varint64_offset fails on writer output")
+            vcheck!(s, false, "read_varint64_offset fails on writer output")
         }
     }
     let mut i = 0;
     while i < 10 {
         if i + 1 < n {
-            s.check(buf[3 + i] & 0x80 != 0, "non-final varint byte has continuation bit");
+            vcheck!(s, buf[3 + i] & 0x80 != 0, "non-final varint byte has continuation bit");
         } else if i + 1 == n {
-            s.check(buf[3 + i] & 0x80 == 0, "final varint byte has no continuation bit");
+            vcheck!(s, buf[3 + i] & 0x80 == 0, "final varint byte has no continuation bit");
         }
         i += 1;
     }
@@ -94,9 +94,9 @@ pub fn k20_2_reader_window<S: Src>(s: &mut S) {
     match r {
         Ok(v) => {
             let n = inner_sizeof_varint(v);
-            s.check(n <= 10, "size of decoded value within 10");
+            vcheck!(s, n <= 10, "size of decoded value within 10");
             // the low seven bits of the value are the low seven bits of the first byte
-            s.check((v & 0x7f) as u8 == w[0] & 0x7f, "first group decoded from first byte");
+            vcheck!(s, (v & 0x7f) as u8 == w[0] & 0x7f, "first group decoded from first byte");
         }
         // drop glue of anyhow::Error (boxed dyn vtable) is a known CBMC sink and not the subject
         Err(e) => std::mem::forget(e),
@@ -209,19 +209,19 @@ pub fn chunking<S: Src, const N: usize, const C: usize, const B: usize>(s: &mut 
                 Some(v) => v,
                 None => break,
             };
-            s.check(got < o.n, "reader returned a record the stream does not contain");
+            vcheck!(s, got < o.n, "reader returned a record the stream does not contain");
             if got < o.n {
                 let (rs, re) = (o.start[got], o.end[got]);
-                s.check(v.len() == re - rs, "record length differs from reference decoder");
+                vcheck!(s, v.len() == re - rs, "record length differs from reference decoder");
                 if v.len() == re - rs && probe < v.len() {
-                    s.check(v[probe] == st[rs + probe], "record bytes differ from stream bytes");
+                    vcheck!(s, v[probe] == st[rs + probe], "record bytes differ from stream bytes");
                 }
                 pos = re;
             }
             got += 1;
             guard += 1;
             if guard > MAXREC {
-                s.check(false, "reader does not make progress");
+                vcheck!(s, false, "reader does not make progress");
                 break;
             }
         }
@@ -246,9 +246,9 @@ pub fn chunking<S: Src, const N: usize, const C: usize, const B: usize>(s: &mut 
     vcover!(s, o.n >= 1 && o.stop < N && st[o.stop] == 0, "records then zero length then stale tail");
     vcover!(s, o.n >= 2 && o.end[0] == C, "record ends exactly at chunk end and another follows");
     vcover!(s, consulted_at_chunk_end, "is_empty() consulted with every delivered byte consumed");
-    s.check(!stopped_early, "end-of-stream reported although a non-zero length follows (stops earlier than the first zero length)");
+    vcheck!(s, !stopped_early, "end-of-stream reported although a non-zero length follows (stops earlier than the first zero length)");
     if !stopped_early {
-        s.check(got == o.n, "number of records differs from reference decoder");
+        vcheck!(s, got == o.n, "number of records differs from reference decoder");
     }
     std::mem::forget(reader);
 }
